@@ -19,7 +19,7 @@ Scale == /\ Is("Scale") /\ l' = l + 1
 Affine == /\ Is("Affine") /\ l' = l + 1 /\ Ev.predRaw = Ev.predUp /\ Ev.exactSame
 \* real-valued data (1..300 rows x 1..20 columns, magnitudes 1e-6..1e6, arbitrary missing patterns, multi-output models): the driver's own
 \* long-double statistics and tolerance comparisons (environment predicates)
-Float == /\ Is("Float") /\ l' = l + 1 /\ Ev.statsOK /\ Ev.roundtripOK /\ Ev.advertisedOK /\ Ev.categoricalOK /\ Ev.missingOK /\ Ev.affineOK
+Float == /\ Is("Float") /\ l' = l + 1 /\ Ev.statsOK /\ Ev.roundtripOK /\ Ev.advertisedOK /\ Ev.categoricalOK /\ Ev.missingOK /\ Ev.affineOK /\ Ev.iteratorOK
 Next == Scale \/ Affine \/ Float
 Init == l = 1
 Spec == Init /\ [][Next]_l
